@@ -6,7 +6,14 @@ _NUM = {
     "xdsl.interpreter": {},
 }
 
+_ARITH_FULL = {m: {"shims": ("math", "struct")} for m in (
+    "xdsl.dialects.builtin", "xdsl.dialects.arith", "xdsl.irdl.attributes", "xdsl.irdl.constraints", "xdsl.utils.hints",
+    "xdsl.transforms.canonicalization_patterns.utils", "xdsl.transforms.canonicalization_patterns.arith", "xdsl.interpreters.arith",
+    "xdsl.transforms.constant_fold_interp", "xdsl.transforms.test_constant_folding", "xdsl.utils.comparisons", "xdsl.folder",
+    "xdsl.transforms.canonicalize", "xdsl.interpreter")}
+
 CHECKS = {
+    "C14": {"module": "vx.checks.c14", "instrument": {"full": _ARITH_FULL}, "maxtasksperchild": 10},
     "C26": {"module": "vx.checks.c26", "instrument": {"full": {"xdsl.ir.affine.affine_expr": {}, "xdsl.ir.affine.affine_map": {}}}},
     "C12": {"module": "vx.checks.c12", "instrument": {"identity": ["xdsl.utils.worklist", "xdsl.utils.disjoint_set", "xdsl.utils.scoped_dict"]}},
     "C15": {"module": "vx.checks.c15", "instrument": {"full": {
